@@ -147,7 +147,7 @@ def build(ctx):
                 small = max(8, nmax // 2) if isgrp else (g.HDR + msg.block_length + 8)
                 variants = [("A", nmax - (g.HDR if isgrp else 0), 3, 6), ("B", small, None, small + 2)]
                 for (vn, nm, maxcnt, unwind) in variants:
-                    common = dict(unwind=unwind, track=True, cap=ctx.q(300, 900), backends=["minisat", "kissat"],
+                    common = dict(unwind=unwind, track=True, cap=ctx.q(600, 1200), backends=["minisat", "kissat"],
                                   bounds={"NMAX": nm, "n": "0..%d symbolic" % nm, "numInGroup": "<= 3 where reached" if maxcnt else "unconstrained (hostile)", "std": "c++" + std, "build": mode})
                     hs.append(P.Harness("%s_%s_%s_%s_cxx%s" % (s_.ns, fn, vn, mode, std), harness(u, g, fn, refname, refc, nm, open_f, None, mode == "checked", maxcnt), [u],
                                         meta={"unwind_is_property": True, "big_loops": ["ref_sbc_%s.%d" % (refname, x) for x in range(12)]}, desc="size_bytes_checked(%s of %s.%s, n): no read at offset >= n, valid <=> fits, exact size, bounded work; all buffers with n <= %d%s" % (
